@@ -306,7 +306,7 @@ func rcGen(g *h.Gen) {
 		if g.Thorough() {
 			for i := 0; i < len(es); i++ {
 				for j := i; j < len(es); j++ {
-					g.Emit("race pair %s %s %s cs=%s ms=%d seed=%d", impl, es[i], es[j], css[g.R.Intn(len(css))], 1000, g.R.Intn(1<<30))
+					g.Emit("race pair %s %s %s cs=%s ms=%d seed=%d", impl, es[i], es[j], css[g.R.Intn(len(css))], 600, g.R.Intn(1<<30))
 				}
 			}
 		} else {
@@ -360,12 +360,12 @@ func rcExec(line string) h.Result {
 			jobs <- l
 		}
 		close(jobs)
-		nw := runtime.NumCPU() / 3
+		nw := runtime.NumCPU() / 2
 		if nw < 1 {
 			nw = 1
 		}
-		if nw > 6 {
-			nw = 6
+		if nw > 8 {
+			nw = 8
 		}
 		for w := 0; w < nw; w++ {
 			go func() {
